@@ -65,6 +65,9 @@ func writeSymHash(symHash SymHash, str string) {
 
 // SymHash2Str gets str literal from symbol hash.
 func SymHash2Str(h SymHash) (PanObject, bool) {
+	// make table access goroutine-safe (RLock allow other goroutines to read)
+	lock.RLock()
+	defer lock.RUnlock()
 	strObj, ok := strTable[h]
 	return strObj, ok
 }
